@@ -568,6 +568,22 @@ func exhaustiveC11(thorough bool, emit func(C11Case) bool) {
 			return
 		}
 	}
+	// every input of one byte, and every input of two bytes that starts with a byte the format
+	// gives a meaning to (or with the first byte of a byte-order mark, a gzip header, a UTF-16
+	// mark): what a look-ahead for a prefix sees when the input ends early
+	for _, f := range c11Formats {
+		firsts := append([]byte(formatAlphabets[f]), 0xef, 0xbb, 0x1f, 0x8b, 0xff, 0xfe, 0x00)
+		for b := 0; b < 256; b++ {
+			if !emit(C11Case{Kind: "total", Format: f, Text: gen.B{byte(b)}}) {
+				return
+			}
+			for _, a := range firsts {
+				if !emit(C11Case{Kind: "total", Format: f, Text: gen.B{a, byte(b)}}) {
+					return
+				}
+			}
+		}
+	}
 	// every dictionary token alone and spliced at every position of a valid line, per format
 	valid := map[string]string{
 		"fasta": ">n\nACGT\n", "fastq": "@n\nAC\n+\nII\n", "sam": "q\t0\tr\t1\t2\tM\t=\t4\t5\tA\tI\tXX:i:1\n",
